@@ -111,14 +111,28 @@ func HarnessC13Teardown() {
 	// traffic in flight in either direction at the moment the end is requested
 	sctx, scancel := context.WithTimeout(context.Background(), 5*time.Second)
 	defer scancel()
-	if nondetBool("client.data-in-flight") {
-		_ = cc.SendMessage(sctx, vhEnvelopeOfKind(0, "c2s").(*Message))
-	}
-	if nondetBool("server.data-in-flight") {
-		_ = sc.SendMessage(sctx, vhEnvelopeOfKind(0, "s2c").(*Message))
+	if vParam("flight", 1) == 1 {
+		if nondetBool("client.data-in-flight") {
+			_ = cc.SendMessage(sctx, vhEnvelopeOfKind(0, "c2s").(*Message))
+		}
+		if nondetBool("server.data-in-flight") {
+			_ = sc.SendMessage(sctx, vhEnvelopeOfKind(0, "s2c").(*Message))
+		}
 	}
 	who := vhChoice("who", 3)
+	if who != 0 && vParam("hangup", 0) == 1 {
+		// like the high-level client: as soon as the session is seen to be over, the connection is dropped
+		go func() {
+			<-cc.RcvDone()
+			_ = cc.Close()
+		}()
+	}
 	var endErr error
+	vPreemptOn()
+	if vParam("Pgate", 0) == 1 {
+		// set-up was run under one schedule; the teardown is explored under all of them
+		vSchedPolicy(1)
+	}
 	switch who {
 	case 0:
 		fs, e := cc.FinishSession(sctx)
@@ -221,4 +235,48 @@ func HarnessC13Parked() {
 	vAssert(clT.isClosed(), "c13:parked-client-connection-closed")
 	vAssert(srvT.isClosed(), "c13:parked-server-connection-closed")
 	vAssert(vThreadsLive() <= 0, "c13:parked-no-goroutine-left-behind")
+}
+
+// HarnessC13HangUp: the server ends the session and the client hangs up the moment it has read the
+// server's last word - the server's terminating call and its receiver goroutine race.
+func HarnessC13HangUp() {
+	clT, srvT := newInProcessTransportPair("c13h", vParam("tbuf", 1))
+	sc := NewServerChannel(srvT, 1, Node{Identity{"postmaster", "srv"}, "s1"}, vhSID)
+	sc.state = SessionStateEstablished
+	sc.remoteNode = Node{Identity{"cl", "dom"}, "i"}
+	sc.startRcv.Do(sc.startReceiver)
+	ctx, cancel := context.WithTimeout(context.Background(), 5*time.Second)
+	defer cancel()
+	var seen envelope
+	go func() {
+		e, err := clT.Receive(ctx)
+		if err == nil {
+			seen = e
+			_ = clT.Close()
+		}
+	}()
+	vQuiesce()
+	var err error
+	who := vhChoice("who", 2)
+	if who == 0 {
+		err = sc.FinishSession(ctx)
+	} else {
+		err = sc.FailSession(ctx, &Reason{Code: 1, Description: "stop"})
+	}
+	vSettle()
+	vReach("c13:hangup-settled")
+	_ = err
+	ses, ok := seen.(*Session)
+	vAssert(ok, "c13:hangup-client-observed-terminal-envelope")
+	if ok {
+		if who == 0 {
+			vAssert(ses.State == SessionStateFinished, "c13:hangup-client-saw-finished")
+			vAssert(sc.State() == SessionStateFinished, "c13:hangup-server-finished")
+		} else {
+			vAssert(ses.State == SessionStateFailed, "c13:hangup-client-saw-failed")
+			vAssert(sc.State() == SessionStateFailed, "c13:hangup-server-failed")
+		}
+	}
+	vAssert(srvT.isClosed(), "c13:hangup-server-connection-closed")
+	vAssert(vThreadsLive() <= 0, "c13:hangup-no-goroutine-left-behind")
 }
